@@ -25,7 +25,7 @@ RULES = ['pkg.base', 'pkg.base.Base', 'pkg.base.Base.m', 'pkg.base.Base.other', 
 def projects(draw: Any) -> Dict[str, Any]:
     fmt = draw(st.sampled_from(['epytext', 'epytext', 'restructuredtext', 'google', 'numpy', 'plaintext']))
     x = XREF[fmt]
-    f = {k: draw(st.booleans()) for k in ['reexport', 'dup', 'nonascii', 'nested', 'iface', 'override', 'inherit_doc', 'private', 'const', 'deep', 'xref_hidden', 'second_root', 'alias_base', 'prop']}
+    f = {k: draw(st.booleans()) for k in ['reexport', 'dup', 'nonascii', 'nested', 'iface', 'override', 'inherit_doc', 'private', 'const', 'deep', 'xref_hidden', 'second_root', 'alias_base', 'prop', 'samename', 'multi_iface']}
     base: List[str] = ['"""Base module, see %s."""' % x('Base')]
     base += ['class Base:', '    """Base class. See %s and %s."""' % (x('helper'), x('Base.other'))]
     base += ['    def m(self, a=None):', '        """Method m, see %s and %s and %s."""' % (x('other'), x('helper'), x('Base'))]
@@ -68,6 +68,19 @@ def projects(draw: Any) -> Dict[str, Any]:
         files['pkg/deep/__init__.py'] = '"""deep pkg"""\n'
         files['pkg/deep/leaf.py'] = 'from ..sub import Sub\nclass Leaf(Sub):\n    """leaf, see %s"""\n    def other(self):\n        pass\n' % x('Sub.own')
     files['pkg/__init__.py'] = '\n'.join(init) + '\n'
+    if f['samename']:
+        # objects whose short name equals the name of the root package
+        files['pkg/pkg.py'] = ('"""module named like its package, see %s"""\nfrom .base import Base\nclass pkg(Base):\n    """class named like the root, see %s"""\n'
+                               '    def m(self, a=None):\n        pass\ndef helper2():\n    """see %s"""\n' % (x('pkg.base.helper'), x('helper2'), x('pkg')))
+    if f['multi_iface']:
+        files['pkg/ifaces.py'] = (
+            'from zope.interface import Interface, implementer\n'
+            'class IReader(Interface):\n    def close():\n        """close of IReader"""\n    def read():\n        """read"""\n'
+            'class IWriter(Interface):\n    def close():\n        """close of IWriter"""\n'
+            'class ISeek(Interface):\n    def close():\n        """close of ISeek"""\n'
+            'class IBuf(Interface):\n    def close():\n        """close of IBuf"""\n'
+            '@implementer(IReader)\nclass R:\n    pass\n@implementer(IWriter)\nclass W:\n    pass\n@implementer(ISeek, IBuf)\nclass S:\n    pass\n'
+            'class Stream(R, W, S):\n    """inherits four interfaces"""\n    def close(self):\n        pass\n    def read(self):\n        pass\n')
     roots = ['pkg']
     if f['second_root']:
         files['other.py'] = 'from pkg.base import Base\nclass O(Base):\n    """see %s"""\n' % x('pkg.sub.Sub')
